@@ -49,109 +49,7 @@ func (c *Ctx) loadsFieldNamed(structName, field string) func(ssa.Value) bool {
 }
 
 func runC12(c *Ctx) {
-	c.rule("C12.X1", "workDispatcher: on every path through one iteration of the dispatch loop a verdict is sent on a batch's errChan exactly when that batch is deleted from currentBatches, and at most once; Query allocates the verdict channel with capacity 1 so that send never blocks; the exit sweep answers every batch still registered", func() {
-		fn := c.fn(fnDispatch)
-		send := sendOn(c.loadsFieldNamed("batchProgress", "errChan"))
-		// currentBatches: the map whose values are *batchProgress
-		isBatches := func(v ssa.Value) bool {
-			m, ok := v.Type().Underlying().(*types.Map)
-			if !ok {
-				return false
-			}
-			p, ok := m.Elem().(*types.Pointer)
-			if !ok {
-				return false
-			}
-			n, ok := p.Elem().(*types.Named)
-			return ok && c.on(n.Obj()) == "batchProgress"
-		}
-		del := mapDelete(isBatches)
-		// the dispatch loop: innermost loop around the select that receives job results
-		jr := c.field("query", "peerWorkManager", "jobResults")
-		var header *ssa.BasicBlock
-		ir.Instrs(fn, func(in ssa.Instruction) {
-			if sel, ok := in.(*ssa.Select); ok {
-				for _, st := range sel.States {
-					if st.Dir == types.RecvOnly && loadsField(jr)(st.Chan) {
-						header = ir.LoopHeaderOf(in.Block())
-					}
-				}
-			}
-		})
-		if header == nil {
-			panic(anchorErr{"dispatch loop (select receiving from jobResults) in workDispatcher"})
-		}
-		c.pairedOnce(fn, header, send, "send on batch.errChan", del, "delete(currentBatches, n)", 5)
-		// registration: exactly one insert per received batch
-		ins := find(fn, mapUpdate(isBatches))
-		c.verdict(len(ins) == 1, c.nm(fn)+" | a batch is registered once, in the newBatches arm", c.P.Pos(fn.Pos()), "one insert into currentBatches", fmt.Sprintf("%d inserts into currentBatches", len(ins)), c.ats(ins)...)
-		// the exit sweep
-		var sweep *ssa.Function
-		ir.Instrs(fn, func(in ssa.Instruction) {
-			d, ok := in.(*ssa.Defer)
-			if !ok {
-				return
-			}
-			if mc, ok := d.Call.Value.(*ssa.MakeClosure); ok {
-				if f, ok := mc.Fn.(*ssa.Function); ok && len(find(f, send)) > 0 {
-					sweep = f
-				}
-			}
-		})
-		okSweep := sweep != nil
-		if okSweep {
-			// the send sits in a range over the batches map
-			okSweep = false
-			for _, s := range find(sweep, send) {
-				if ir.LoopHeaderOf(s.Block()) != nil {
-					okSweep = true
-				}
-			}
-			n := 0
-			ir.Instrs(sweep, func(in ssa.Instruction) {
-				if r, ok := in.(*ssa.Range); ok && isBatches(r.X) {
-					n++
-				}
-			})
-			okSweep = okSweep && n == 1
-		}
-		c.verdict(okSweep, c.nm(fn)+" | deferred exit sweep sends a verdict to every batch still in currentBatches", c.P.Pos(fn.Pos()), "deferred closure ranges over currentBatches and sends on errChan", "the dispatcher's exit no longer answers the batches still registered (callers of Query would wait forever)")
-		// Query
-		q := c.fn(fnQuery)
-		var mk *ssa.MakeChan
-		ir.Instrs(q, func(in ssa.Instruction) {
-			if m, ok := in.(*ssa.MakeChan); ok {
-				mk = m
-			}
-		})
-		okCap := false
-		if mk != nil {
-			k, isC := ir.ConstInt(mk.Size)
-			okCap = isC && k == 1
-		}
-		c.verdict(okCap, c.nm(q)+" | verdict channel allocated with capacity 1", c.P.Pos(q.Pos()), "make(chan error, 1)", "the verdict channel is not buffered with capacity 1: the dispatcher's single send could block")
-		// Query: either hands the batch over or answers itself
-		nb := c.field("query", "peerWorkManager", "newBatches")
-		okQ := false
-		ir.Instrs(q, func(in ssa.Instruction) {
-			sel, ok := in.(*ssa.Select)
-			if !ok || !sel.Blocking {
-				return
-			}
-			hasSend, hasQuit := false, false
-			for _, st := range sel.States {
-				if st.Dir == types.SendOnly && loadsField(nb)(st.Chan) {
-					hasSend = true
-				}
-				if st.Dir == types.RecvOnly && loadsField(c.field("query", "peerWorkManager", "quit"))(st.Chan) {
-					hasQuit = true
-				}
-			}
-			okQ = hasSend && hasQuit
-		})
-		sends := find(q, func(in ssa.Instruction) bool { _, ok := in.(*ssa.Send); return ok })
-		c.verdict(okQ && len(sends) == 1, c.nm(q)+" | batch handed to the dispatcher or answered with the shutdown error", c.P.Pos(q.Pos()), "select{newBatches<-b | <-quit: errChan<-ErrWorkManagerShuttingDown}", "Query no longer guarantees an answer when the dispatcher is gone")
-	})
+	c.rule("C12.X1", verdictPerBatchDoc, func() { c.verdictPerBatch() })
 
 	c.rule("C12.V1", batchRendezvousDoc, func() { c.batchRendezvous() })
 
@@ -477,6 +375,135 @@ func runC12(c *Ctx) {
 			return ok && aw != nil && elemIs(mt.Elem(), aw)
 		})
 		c.mustFollowIter(fn, "the worker's exit signal", starts, del, "delete(workers, addr)", nil, 1)
+	})
+
+	c.rule("C12.O7", "an answered request is answered: whatever else the handler reports, a response it declares Finished ends the job - in worker.Run every path from the return of job.HandleResp back to the wait for the next message passes the test of progress.Finished; a Finished behind a Progressed test is ignored for handlers that answer a single-response request with Finished alone (Progressed is documented for multi-response requests): the job then times out, the dispatcher re-issues a request that was answered, and the batch fails at the retry limit although every request was answered", func() {
+		fn := c.fn(fnWRun)
+		handle := c.field("query", "Request", "HandleResp")
+		fin := c.field("query", "Progress", "Finished")
+		var calls []ssa.Instruction
+		ir.Instrs(fn, func(in ssa.Instruction) {
+			call, ok := in.(*ssa.Call)
+			if !ok || call.Call.IsInvoke() || call.Call.StaticCallee() != nil {
+				return
+			}
+			if loadsField(handle)(call.Call.Value) {
+				calls = append(calls, in)
+			}
+		})
+		tests := map[ssa.Instruction]bool{}
+		ir.Instrs(fn, func(in ssa.Instruction) {
+			isFin := false
+			if f, ok := in.(*ssa.Field); ok && ir.FieldOfValue(f) == fin {
+				isFin = true
+			}
+			if u, ok := in.(*ssa.UnOp); ok && u.Op == token.MUL {
+				if fa, ok := u.X.(*ssa.FieldAddr); ok && ir.FieldOfAddr(fa) == fin {
+					isFin = true
+				}
+			}
+			if !isFin {
+				return
+			}
+			for _, b := range ir.TrueBranches(in.(ssa.Value)) {
+				if b.Pol == 0 {
+					tests[b.If] = true
+				}
+			}
+		})
+		var starts []start
+		for _, x := range calls {
+			starts = append(starts, afterInstr(c, x))
+		}
+		c.mustFollowIter(fn, "job.HandleResp returned", starts, func(in ssa.Instruction) bool { return tests[in] }, "the test of progress.Finished", nil, 1)
+	})
+
+	c.rule("C12.O8", "a job leaves the work heap only into a worker's hands: in the dispatcher every heap.Pop of the work queue lies behind the arm of the hand-over select on which a worker took the job (the send on worker.NewJob() succeeded); popped before that, a job offered only to workers that have all exited meanwhile is in nobody's hands: its batch keeps counting it, nobody re-issues it, and the batch never gets a verdict", func() {
+		fn := c.fn(fnDispatch)
+		newJob := c.method("query", "Worker", "NewJob")
+		pop := c.funcObj("container/heap", "Pop")
+		pops := find(fn, callTo(pop))
+		arm := map[ir.Edge]bool{}
+		ir.Instrs(fn, func(y ssa.Instruction) {
+			sel, isSel := y.(*ssa.Select)
+			if !isSel {
+				return
+			}
+			for i, st := range sel.States {
+				if st.Dir != types.SendOnly || !ir.DerivesFrom(st.Chan, valIsCallTo(newJob)) {
+					continue
+				}
+				for _, rr := range ir.Refs(sel) {
+					if ex, isEx := rr.(*ssa.Extract); isEx && ex.Index == 0 {
+						for _, ib := range ir.IntEqBranches(ex) {
+							if ib.K == int64(i) {
+								arm[ib.Edge()] = true
+							}
+						}
+					}
+				}
+			}
+		})
+		var bad []string
+		for _, p := range pops {
+			ok := false
+			for q := range arm {
+				if ir.EdgeDominates(fn, q, p.Block()) {
+					ok = true
+				}
+			}
+			if !ok {
+				bad = append(bad, "heap.Pop at "+c.at(p)+" is not behind a successful hand-over")
+			}
+		}
+		sort.Strings(bad)
+		c.verdict(len(bad) == 0 && len(pops) >= 1 && len(arm) >= 1, c.nm(fn)+" | the work heap is popped only behind a successful hand-over", c.P.Pos(fn.Pos()), fmt.Sprintf("%d pop(s), each behind the send arm of the hand-over select", len(pops)), join(bad)+" (or no pop / hand-over found)", c.ats(pops)...)
+	})
+
+	c.rule("C12.G4", "a worker leaves the dispatcher's table only on its own exit signal: every delete from the workers map lies behind the arm of a select that received from an activeWorker's onExit channel; the table is keyed by peer address and a reconnecting peer overwrites its entry, so a delete prompted by anything else (a 'peer disconnected' result of the old worker, say) can hit the new, live worker: the unanswered request stays on the heap, is never handed out again, and the batch gets no verdict", func() {
+		fn := c.fn(fnDispatch)
+		aw := c.P.Named("query", "activeWorker")
+		onExit := c.field("query", "activeWorker", "onExit")
+		del := mapDelete(func(m ssa.Value) bool {
+			mt, ok := m.Type().Underlying().(*types.Map)
+			return ok && aw != nil && elemIs(mt.Elem(), aw)
+		})
+		dels := find(fn, del)
+		arm := map[ir.Edge]bool{}
+		ir.Instrs(fn, func(y ssa.Instruction) {
+			sel, isSel := y.(*ssa.Select)
+			if !isSel {
+				return
+			}
+			for i, st := range sel.States {
+				if st.Dir != types.RecvOnly || !loadsField(onExit)(st.Chan) {
+					continue
+				}
+				for _, rr := range ir.Refs(sel) {
+					if ex, isEx := rr.(*ssa.Extract); isEx && ex.Index == 0 {
+						for _, ib := range ir.IntEqBranches(ex) {
+							if ib.K == int64(i) {
+								arm[ib.Edge()] = true
+							}
+						}
+					}
+				}
+			}
+		})
+		var bad []string
+		for _, d := range dels {
+			ok := false
+			for q := range arm {
+				if ir.EdgeDominates(fn, q, d.Block()) {
+					ok = true
+				}
+			}
+			if !ok {
+				bad = append(bad, "delete(workers, ..) at "+c.at(d)+" is not behind a worker's exit signal")
+			}
+		}
+		sort.Strings(bad)
+		c.verdict(len(bad) == 0 && len(dels) >= 1, c.nm(fn)+" | workers are forgotten only on <-onExit", c.P.Pos(fn.Pos()), fmt.Sprintf("%d delete(s), each behind an onExit arm", len(dels)), join(bad)+" (or no delete found)", c.ats(dels)...)
 	})
 
 	c.rule("C12.O6", "the record behind the preference is kept and used: every result without error that the dispatcher counts reaches Ranking.Reward for the answering peer within the iteration, whatever becomes of the batch afterwards (the answer that completes a batch included - for the single-request batches that is every answer); every failed result reaches Ranking.Punish or ResetRanking; the hand-over loop runs over the slice Ranking.Order was applied to, and behind it; in the stock ranking Order sorts ascending by score, Reward lowers and Punish raises the score", func() {
@@ -980,4 +1007,111 @@ func (c *Ctx) noJobLost() {
 		starts = append(starts, afterInstr(c, p))
 	}
 	c.mustFollowIter(fn, "job pushed back", starts, mapUpdate(isQueries), "currentQueries[job.index] = batchNum", nil, 1)
+}
+
+const verdictPerBatchDoc = "workDispatcher: on every path through one iteration of the dispatch loop a verdict is sent on a batch's errChan exactly when that batch is deleted from currentBatches, and at most once; Query allocates the verdict channel with capacity 1 so that send never blocks; the exit sweep answers every batch still registered"
+
+// verdictPerBatch: see verdictPerBatchDoc.
+func (c *Ctx) verdictPerBatch() {
+	fn := c.fn(fnDispatch)
+	send := sendOn(c.loadsFieldNamed("batchProgress", "errChan"))
+	// currentBatches: the map whose values are *batchProgress
+	isBatches := func(v ssa.Value) bool {
+		m, ok := v.Type().Underlying().(*types.Map)
+		if !ok {
+			return false
+		}
+		p, ok := m.Elem().(*types.Pointer)
+		if !ok {
+			return false
+		}
+		n, ok := p.Elem().(*types.Named)
+		return ok && c.on(n.Obj()) == "batchProgress"
+	}
+	del := mapDelete(isBatches)
+	// the dispatch loop: innermost loop around the select that receives job results
+	jr := c.field("query", "peerWorkManager", "jobResults")
+	var header *ssa.BasicBlock
+	ir.Instrs(fn, func(in ssa.Instruction) {
+		if sel, ok := in.(*ssa.Select); ok {
+			for _, st := range sel.States {
+				if st.Dir == types.RecvOnly && loadsField(jr)(st.Chan) {
+					header = ir.LoopHeaderOf(in.Block())
+				}
+			}
+		}
+	})
+	if header == nil {
+		panic(anchorErr{"dispatch loop (select receiving from jobResults) in workDispatcher"})
+	}
+	c.pairedOnce(fn, header, send, "send on batch.errChan", del, "delete(currentBatches, n)", 5)
+	// registration: exactly one insert per received batch
+	ins := find(fn, mapUpdate(isBatches))
+	c.verdict(len(ins) == 1, c.nm(fn)+" | a batch is registered once, in the newBatches arm", c.P.Pos(fn.Pos()), "one insert into currentBatches", fmt.Sprintf("%d inserts into currentBatches", len(ins)), c.ats(ins)...)
+	// the exit sweep
+	var sweep *ssa.Function
+	ir.Instrs(fn, func(in ssa.Instruction) {
+		d, ok := in.(*ssa.Defer)
+		if !ok {
+			return
+		}
+		if mc, ok := d.Call.Value.(*ssa.MakeClosure); ok {
+			if f, ok := mc.Fn.(*ssa.Function); ok && len(find(f, send)) > 0 {
+				sweep = f
+			}
+		}
+	})
+	okSweep := sweep != nil
+	if okSweep {
+		// the send sits in a range over the batches map
+		okSweep = false
+		for _, s := range find(sweep, send) {
+			if ir.LoopHeaderOf(s.Block()) != nil {
+				okSweep = true
+			}
+		}
+		n := 0
+		ir.Instrs(sweep, func(in ssa.Instruction) {
+			if r, ok := in.(*ssa.Range); ok && isBatches(r.X) {
+				n++
+			}
+		})
+		okSweep = okSweep && n == 1
+	}
+	c.verdict(okSweep, c.nm(fn)+" | deferred exit sweep sends a verdict to every batch still in currentBatches", c.P.Pos(fn.Pos()), "deferred closure ranges over currentBatches and sends on errChan", "the dispatcher's exit no longer answers the batches still registered (callers of Query would wait forever)")
+	// Query
+	q := c.fn(fnQuery)
+	var mk *ssa.MakeChan
+	ir.Instrs(q, func(in ssa.Instruction) {
+		if m, ok := in.(*ssa.MakeChan); ok {
+			mk = m
+		}
+	})
+	okCap := false
+	if mk != nil {
+		k, isC := ir.ConstInt(mk.Size)
+		okCap = isC && k == 1
+	}
+	c.verdict(okCap, c.nm(q)+" | verdict channel allocated with capacity 1", c.P.Pos(q.Pos()), "make(chan error, 1)", "the verdict channel is not buffered with capacity 1: the dispatcher's single send could block")
+	// Query: either hands the batch over or answers itself
+	nb := c.field("query", "peerWorkManager", "newBatches")
+	okQ := false
+	ir.Instrs(q, func(in ssa.Instruction) {
+		sel, ok := in.(*ssa.Select)
+		if !ok || !sel.Blocking {
+			return
+		}
+		hasSend, hasQuit := false, false
+		for _, st := range sel.States {
+			if st.Dir == types.SendOnly && loadsField(nb)(st.Chan) {
+				hasSend = true
+			}
+			if st.Dir == types.RecvOnly && loadsField(c.field("query", "peerWorkManager", "quit"))(st.Chan) {
+				hasQuit = true
+			}
+		}
+		okQ = hasSend && hasQuit
+	})
+	sends := find(q, func(in ssa.Instruction) bool { _, ok := in.(*ssa.Send); return ok })
+	c.verdict(okQ && len(sends) == 1, c.nm(q)+" | batch handed to the dispatcher or answered with the shutdown error", c.P.Pos(q.Pos()), "select{newBatches<-b | <-quit: errChan<-ErrWorkManagerShuttingDown}", "Query no longer guarantees an answer when the dispatcher is gone")
 }
